@@ -316,3 +316,155 @@ def df_history(inp, W):
             status = type(e).__name__
         obs.append([o, status, _observe(W, f)])
     return {"init": "ok", "obs": obs}
+
+# ---------------------------------------------------------------------------- C15 ListOfDicts transformations
+
+def _lod_ids(lod):
+    return [item.get("id") for item in lod]
+
+@op
+def lod_op(inp, W):
+    data = inp["data"]; m = inp["method"]
+    di = W.di
+    before = [dict(x) for x in data]
+    extra = {}
+    if m in ("filter", "filter_out"):
+        if inp["cond"] == "function":
+            table = inp["pred"]
+            out = getattr(data, m)(lambda item: table[item["id"]])
+        else:
+            out = getattr(data, m)(**{k: v for k, v in inp["pairs"]})
+    elif m == "sort":
+        out = data.sort(**{k: d for k, d in inp["by"]})
+    elif m == "unique":
+        out = data.unique(*inp["keys"])
+    elif m in ("select", "unselect"):
+        out = getattr(data, m)(*inp["keys"])
+    elif m == "rename":
+        out = data.rename(**{to: fm for to, fm in inp["pairs"]})
+    elif m == "modify":
+        table = inp["values"]
+        out = data.modify(**{inp["key"]: (lambda item: table[item["id"]])})
+    elif m == "modify_if":
+        table = inp["values"]; ptable = inp["pred"]
+        out = data.modify_if(lambda item: ptable[item["id"]], **{inp["key"]: (lambda item: table[item["id"]])})
+    elif m == "fill_missing_keys":
+        out = data.fill_missing_keys(**{k: v for k, v in inp["pairs"]})
+    elif m == "append":
+        out = data.append(inp["item"])
+    elif m == "extend":
+        out = data.extend(inp["other"])
+    elif m == "insert":
+        out = data.insert(inp["index"], inp["item"])
+    elif m == "add":
+        out = data + inp["other"]
+    elif m == "mul":
+        out = data * inp["n"]
+    elif m == "rmul":
+        out = inp["n"] * data
+    elif m == "reverse":
+        out = data.reverse()
+    elif m in ("head", "tail"):
+        out = getattr(data, m)(inp["n"])
+    elif m == "getitem":
+        a, b, c = inp["slice"]
+        out = data[a:b:c]
+    elif m == "drop_na":
+        out = data.drop_na(*inp["keys"])
+    elif m == "copy":
+        out = data.copy()
+    elif m == "deepcopy":
+        out = data.deepcopy()
+    else:
+        raise ValueError(m)
+    return {"out": out, "before": before, "recv_items": [dict(x) for x in data]}
+
+# ---------------------------------------------------------------------------- C16 ListOfDicts joins / aggregate
+
+@op
+def lod_join(inp, W):
+    a, b = inp["a"], inp["b"]
+    b_before = [dict(x) for x in b]
+    by = [x if isinstance(x, str) else tuple(x) for x in inp["by"]]
+    out = getattr(a, inp["kind"])(b, *by)
+    return {"out": out, "b_after": [dict(x) for x in b], "b_before": b_before}
+
+@op
+def lod_aggregate(inp, W):
+    data = inp["data"]
+    out = data.group_by(*inp["by"]).aggregate(n=len, ids=lambda g: [x["id"] for x in g])
+    return {"out": out}
+
+# ---------------------------------------------------------------------------- C17 shared-dict discipline
+
+WARNING_TEXT = "Warning: A successor has modified the shared dicts"
+
+@op
+def lod_deepcopy(inp, W):
+    data = inp["data"]
+    before = [dict(x) for x in data]
+    table = inp["values"]
+    copy = data.deepcopy()
+    if inp["edit"] == "copy":
+        edited = copy.modify(k=lambda item: table[item["id"]])
+        untouched = data
+    else:
+        edited = data.modify(k=lambda item: table[item["id"]])
+        untouched = copy
+    return {"before": before, "untouched": [dict(x) for x in untouched], "edited": [dict(x) for x in edited],
+            "copy_obsolete": bool(list.__getattribute__(copy, "_obsolete")), "data_obsolete": bool(list.__getattribute__(data, "_obsolete"))}
+
+SHARING = ["copy", "filter", "sort", "head", "tail", "slice", "reverse", "unique", "add", "extend", "append", "semi_join",
+           "anti_join", "drop_na", "filter_out", "mul"]
+EDITING = ["modify", "modify_if", "rename", "select", "unselect", "fill_missing_keys", "inner_join", "left_join"]
+
+@op
+def lod_history(inp, W):
+    import io, contextlib
+    di = W.di
+    nodes = [inp["data"]]
+    warnings = [0]
+    def use(i, fn):
+        buf = io.StringIO()
+        with contextlib.redirect_stdout(buf):
+            r = fn(nodes[i])
+        warnings[i] += buf.getvalue().count(WARNING_TEXT)
+        return r
+    other = di.ListOfDicts([{"id": 100, "k": 5}])
+    for st in inp["steps"]:
+        t = st["target"]; m = st["method"]
+        if m == "copy": r = use(t, lambda x: x.copy())
+        elif m == "deepcopy": r = use(t, lambda x: x.deepcopy())
+        elif m == "filter": r = use(t, lambda x: x.filter(lambda item: True))
+        elif m == "filter_out": r = use(t, lambda x: x.filter_out(lambda item: False))
+        elif m == "sort": r = use(t, lambda x: x.sort(id=1))
+        elif m == "head": r = use(t, lambda x: x.head(5))
+        elif m == "tail": r = use(t, lambda x: x.tail(5))
+        elif m == "slice": r = use(t, lambda x: x[0:5])
+        elif m == "reverse": r = use(t, lambda x: x.reverse())
+        elif m == "unique": r = use(t, lambda x: x.unique("id"))
+        elif m == "drop_na": r = use(t, lambda x: x.drop_na("id"))
+        elif m == "mul": r = use(t, lambda x: x * 1)
+        elif m == "append": r = use(t, lambda x: x.append({"id": 200 + len(nodes), "k": 1}))
+        elif m == "semi_join": r = use(t, lambda x: x.semi_join(x.deepcopy(), "id"))
+        elif m == "anti_join": r = use(t, lambda x: x.anti_join(other, "id"))
+        elif m in ("add", "extend"):
+            o = st["other"]
+            r = use(t, (lambda x: x + nodes[o]) if m == "add" else (lambda x: x.extend(nodes[o])))
+        elif m == "modify": r = use(t, lambda x: x.modify(z=lambda item: 1))
+        elif m == "modify_if": r = use(t, lambda x: x.modify_if(lambda item: True, z=lambda item: 1))
+        elif m == "rename": r = use(t, lambda x: x.rename(kk="k"))
+        elif m == "select": r = use(t, lambda x: x.select("id", "k"))
+        elif m == "unselect": r = use(t, lambda x: x.unselect("zz"))
+        elif m == "fill_missing_keys": r = use(t, lambda x: x.fill_missing_keys(w=0))
+        elif m == "inner_join": r = use(t, lambda x: x.inner_join(other, "id"))
+        elif m == "left_join": r = use(t, lambda x: x.left_join(other, "id"))
+        else: raise RuntimeError(m)
+        nodes.append(r); warnings.append(0)
+    flags = [bool(list.__getattribute__(x, "_obsolete")) for x in nodes]
+    first = []; second = []
+    for i in range(len(nodes)):
+        w0 = warnings[i]; use(i, lambda x: x.pluck); first.append(warnings[i] - w0)
+    for i in range(len(nodes)):
+        w0 = warnings[i]; use(i, lambda x: x.pluck); second.append(warnings[i] - w0)
+    return {"flags": flags, "warnings_total": list(warnings), "second_use": second}
